@@ -1,7 +1,94 @@
 import AndaVerif.Drv.Coll
+import AndaVerif.Model.CollSched
 /-
-Driver of the C04 model (unique constraints, rejected writes leave no trace): the shared
-collection line protocol of `Drv/Coll.lean` (same model as C02).
+Driver of the C04 model: the shared collection line protocol of `Drv/Coll.lean` (same model as
+C02) plus one command for the concurrent model (`Model/CollSched.lean`):
+
+  conc <token> …      tokens:  r:<ix>.<k>:<id>                     a posting of the start relation
+                               add:<id>:<ix>.<k>[a],…              an `add` writer; `a` marks a key that goes
+                                                                   through `insert_array` (pre-check + insert)
+                               upd:<id>:<ix>.<old>.<new>,…         an `update` writer as the code runs it
+                                                                   (`insert(new)`, `remove(old)` index by index)
+      → every outcome vector reachable under some schedule, sorted, e.g. `AR RA`
+        (per writer: A accepted, R rejected, P rejected with a failed rollback = poisoned)
 -/
+open AndaVerif.Collection AndaVerif.Drv
+
+namespace AndaVerif.DrvC04
+
+def parseG (s : String) : Option (Nat × Key) :=
+  match s.splitOn "." with
+  | [ix, k] => do let ix ← ix.toNat?; let k ← k.toInt?; pure (ix, .s k)
+  | _ => none
+
+def parseAddKey (s : String) : Option (List Act × List Act) :=
+  let arr := s.endsWith "a"
+  let body := if arr then (s.dropEnd 1).toString else s
+  (parseG body).map (fun g => if arr then ([Act.chk g], [Act.ins g]) else ([], [Act.ins g]))
+
+def mkWriter (id : Nat) (held : List (Nat × Key)) (prog : List Act) : Writer :=
+  { id := id, held := held, prog := prog, done := [], drop := [], dropped := [], mode := .run, prog0 := prog, drop0 := [],
+    released := [], poisoned := false }
+
+/-- group the actions index by index: for an array index all pre-checks come before its inserts -/
+def addProg (keys : List (Nat × List Act × List Act)) : List Act :=
+  let ixs := keys.foldl (fun acc k => if acc.contains k.1 then acc else acc ++ [k.1]) ([] : List Nat)
+  ixs.flatMap (fun ix =>
+    let mine := keys.filter (fun k => k.1 == ix)
+    mine.flatMap (fun k => k.2.1) ++ mine.flatMap (fun k => k.2.2))
+
+def parseToken (acc : List ((Nat × Key) × Nat) × List Writer) (t : String) : Option (List ((Nat × Key) × Nat) × List Writer) :=
+  match t.splitOn ":" with
+  | ["r", g, id] => do let g ← parseG g; let id ← id.toNat?; pure (acc.1 ++ [(g, id)], acc.2)
+  | ["add", id, keys] => do
+      let id ← id.toNat?
+      let ks ← (keys.splitOn ",").mapM (fun k => do
+        let body := if k.endsWith "a" then (k.dropEnd 1).toString else k
+        let g ← parseG body
+        let p ← parseAddKey k
+        pure (g.1, p))
+      pure (acc.1, acc.2 ++ [mkWriter id [] (addProg ks)])
+  | ["upd", id, chs] => do
+      let id ← id.toNat?
+      let cs ← (chs.splitOn ",").mapM (fun c =>
+        match c.splitOn "." with
+        | [ix, o, n] => do let ix ← ix.toNat?; let o ← o.toInt?; let n ← n.toInt?; pure ((ix, Key.s o), (ix, Key.s n))
+        | _ => none)
+      pure (acc.1, acc.2 ++ [mkWriter id (cs.map (·.1)) (cs.flatMap (fun c => [Act.ins c.2, Act.rel c.1]))])
+  | _ => none
+
+def outcomeOf (ws : List Writer) : String :=
+  String.ofList (ws.map (fun w => if w.mode == .accepted then 'A' else if w.poisoned then 'P' else 'R'))
+
+/-- all configurations reachable under any schedule (worklist with a visited set) -/
+partial def explore (todo : List (List ((Nat × Key) × Nat) × List Writer))
+    (seen : List (List ((Nat × Key) × Nat) × List Writer)) (outs : List String) : List String :=
+  match todo with
+  | [] => outs
+  | c :: rest =>
+    if seen.contains c then explore rest seen outs
+    else
+      let seen := c :: seen
+      if c.2.all (fun w => w.finished) then
+        let o := outcomeOf c.2
+        explore rest seen (if outs.contains o then outs else o :: outs)
+      else
+        let nexts := (List.range c.2.length).filterMap (fun t =>
+          let n := stepAt c.1 c.2 t
+          if n == c then none else some n)
+        explore (nexts ++ rest) seen outs
+
+def conc (toks : List String) : String :=
+  match toks.foldlM parseToken (([], []) : List ((Nat × Key) × Nat) × List Writer) with
+  | none => "bad-op"
+  | some (r, ws) => " ".intercalate (AndaVerif.DrvColl.sortStrs (explore [(r, ws)] [] []))
+
+def stepLine (st : State × Bool) (line : String) : (State × Bool) × String :=
+  match words line with
+  | "conc" :: toks => (st, conc toks)
+  | _ => AndaVerif.DrvColl.stepLine st line
+
+end AndaVerif.DrvC04
+
 def main : IO Unit :=
-  AndaVerif.Drv.lineLoop (AndaVerif.Collection.init [], false) AndaVerif.DrvColl.stepLine
+  AndaVerif.Drv.lineLoop (AndaVerif.Collection.init [], false) AndaVerif.DrvC04.stepLine
